@@ -127,6 +127,23 @@ func (li *lexerInfo) posDelta(in ssa.Instruction) (int, bool) {
 }
 
 func runC16(c *Ctx, r *Report) {
+
+	if !r.Sub {
+		r.Rule("C16.R5", "(shared with C15) an unfinished token is not the end of the input: in file mode the failed-read edge of readString does not return the end marker")
+		sub := NewReport("C15", r.Tier, c)
+		sub.Sub = true
+		runC15(c, sub)
+		for _, o := range sub.Obls {
+			if o.Rule != "C16.R5" {
+				continue
+			}
+			if o.status == FAIL {
+				r.Fail(o.Rule, o.Func, o.Desc, o.Pos, o.Reason)
+			} else {
+				r.Ok(o.Rule, o.Func, o.Desc, o.Pos)
+			}
+		}
+	}
 	r.Rule("C16.R1", "token text = bytes spanned: in every lexer function that returns a slice of the input as token text, the low bound is the token start (position at entry minus the byte already consumed) and the high bound is the current position at that return (no position write between reading the bound and returning, or the position is rewound to the bound)")
 	r.Rule("C16.R2", "constant tokens: on every path of NextToken to a return of a one-byte constant token (or ILLEGAL) the position advanced by exactly 1 after skipping whitespace, and by exactly 2 for two-byte tokens; unchecked table lookups are only reached with byte pairs / bytes that are registered (path conditions evaluated on all 256x256 byte pairs)")
 	r.Rule("C16.R3", "interning and keywords: identifier text goes only through LookupIdent, which consults the keyword table before interning an IDENT; the keyword table is filled for the whole identity-token range; value tokens are built through Intern; nothing reachable from token production (NextToken, Intern, InternToken, LookupIdent) replaces, clears or deletes from the interning table")
